@@ -4,6 +4,11 @@
 //! state and a way to duplicate a decoder, so that an external explorer can
 //! deduplicate states exactly and branch from a state without re-running the
 //! history that led to it. Nothing here is used by the library itself.
+//!
+//! The code is written defensively (wide integer fields and `as` conversions,
+//! wildcard arms, struct-update syntax) so that it keeps compiling when a field of
+//! the decoder changes its integer type; an explorer must not rely on it being
+//! complete without checking that a duplicate behaves like its original.
 
 use super::{DecodeState, Decoder, NonOwningDecoder};
 use crate::util::{Buffer, CRC_X25};
@@ -17,15 +22,15 @@ pub struct DecoderSnapshot {
     /// `num_discarded_bytes` (tag 0), else 0
     pub num_discarded_bytes: u64,
     /// `num_init_seq_bytes` (tag 0), `n` (tag 2), `step` (tag 3), else 0
-    pub n: u8,
+    pub n: u64,
     /// escape payload (tag 3), else zeros
     pub payload: [u8; 4],
     /// `raw_msg_len`
-    pub raw_msg_len: usize,
+    pub raw_msg_len: u64,
     /// the running CRC as `digest.clone().finalize()` (a bijection of the register)
     pub crc: u16,
     /// `zero_cache`
-    pub zero_cache: u8,
+    pub zero_cache: u64,
     /// contents of the output buffer
     pub buf: alloc::vec::Vec<u8>,
 }
@@ -38,20 +43,22 @@ impl<B: Buffer> Decoder<B> {
             DecodeState::LookingForMessageStart {
                 num_discarded_bytes,
                 num_init_seq_bytes,
-            } => (0, num_discarded_bytes as u64, num_init_seq_bytes, [0; 4]),
+            } => (0u8, num_discarded_bytes as u64, num_init_seq_bytes as u64, [0u8; 4]),
             DecodeState::ParsingNormal => (1, 0, 0, [0; 4]),
-            DecodeState::ParsingEscChars(n) => (2, 0, n, [0; 4]),
-            DecodeState::ParsingEscPayload { step, payload } => (3, 0, step, payload),
+            DecodeState::ParsingEscChars(n) => (2, 0, n as u64, [0; 4]),
+            DecodeState::ParsingEscPayload { step, payload } => (3, 0, step as u64, payload),
             DecodeState::Done => (4, 0, 0, [0; 4]),
+            #[allow(unreachable_patterns)]
+            _ => (255, 0, 0, [0; 4]),
         };
         DecoderSnapshot {
             tag,
             num_discarded_bytes,
             n,
             payload,
-            raw_msg_len: d.raw_msg_len,
+            raw_msg_len: d.raw_msg_len as u64,
             crc: d.crc.clone().finalize(),
-            zero_cache: d.zero_cache,
+            zero_cache: d.zero_cache as u64,
             buf: self.buf[..].to_vec(),
         }
     }
@@ -78,7 +85,10 @@ impl<B: Buffer> Decoder<B> {
                 DecodeState::ParsingEscPayload { step, payload }
             }
             DecodeState::Done => DecodeState::Done,
+            #[allow(unreachable_patterns)]
+            _ => return None,
         };
+        #[allow(clippy::needless_update)]
         Some(Decoder {
             buf,
             decoder: NonOwningDecoder {
@@ -86,6 +96,7 @@ impl<B: Buffer> Decoder<B> {
                 crc: d.crc.clone(),
                 state,
                 zero_cache: d.zero_cache,
+                ..Default::default()
             },
         })
     }
@@ -100,12 +111,12 @@ impl<B: Buffer> Decoder<B> {
         let state = match snap.tag {
             0 => DecodeState::LookingForMessageStart {
                 num_discarded_bytes: snap.num_discarded_bytes.try_into().ok()?,
-                num_init_seq_bytes: snap.n,
+                num_init_seq_bytes: snap.n.try_into().ok()?,
             },
             1 => DecodeState::ParsingNormal,
-            2 => DecodeState::ParsingEscChars(snap.n),
+            2 => DecodeState::ParsingEscChars(snap.n.try_into().ok()?),
             3 => DecodeState::ParsingEscPayload {
-                step: snap.n,
+                step: snap.n.try_into().ok()?,
                 payload: snap.payload,
             },
             4 => DecodeState::Done,
@@ -115,13 +126,15 @@ impl<B: Buffer> Decoder<B> {
         // with the final xor undone, and `digest_with_initial` reflects its argument once.
         let register = snap.crc ^ 0xffff;
         let crc = CRC_X25.digest_with_initial(register.reverse_bits());
+        #[allow(clippy::needless_update)]
         Some(Decoder {
             buf,
             decoder: NonOwningDecoder {
-                raw_msg_len: snap.raw_msg_len,
+                raw_msg_len: snap.raw_msg_len.try_into().ok()?,
                 crc,
                 state,
-                zero_cache: snap.zero_cache,
+                zero_cache: snap.zero_cache.try_into().ok()?,
+                ..Default::default()
             },
         })
     }
